@@ -122,10 +122,12 @@ class EndpointUrlArgsGenerator:
             context.add_import(f"{context.core_package_name}.utils", "DataclassSerializer")
             # Percent-encode the serialised value so that it stays one path segment ("/", "?", "#", "%")
             context.add_import("urllib.parse", "quote")
+            context.add_import(f"{context.core_package_name}.utils", "serialize_simple")
             for p in path_params:
                 param_var_name = NameSanitizer.sanitize_method_name(p["name"])
                 writer.write_line(
-                    f'{param_var_name} = quote(str(DataclassSerializer.serialize({param_var_name})), safe="")'
+                    f"{param_var_name} = "
+                    f'quote(serialize_simple(DataclassSerializer.serialize({param_var_name})), safe="")'
                 )
             writer.write_line("")  # Blank line after path param serialization
 
@@ -167,6 +169,9 @@ class EndpointUrlArgsGenerator:
             self._write_header_params(writer, op, ordered_params, context)
             # writer.dedent()
             writer.write_line("}")
+            if has_header_params:  # header values must be text (httpx rejects int, bool and list values)
+                context.add_import(f"{context.core_package_name}.utils", "serialize_simple")
+                writer.write_line("headers = {name: serialize_simple(value) for name, value in headers.items()}")
             writer.write_line("")  # Add a blank line
 
         # Cookie Parameters (same construction as the headers dict)
@@ -175,6 +180,8 @@ class EndpointUrlArgsGenerator:
             writer.write_line("cookies: dict[str, Any] = {")
             self._write_header_params(writer, op, ordered_params, context, param_in="cookie")
             writer.write_line("}")
+            context.add_import(f"{context.core_package_name}.utils", "serialize_simple")
+            writer.write_line("cookies = {name: serialize_simple(value) for name, value in cookies.items()}")
             writer.write_line("")  # Add a blank line
 
         # Request Body related local variables (json_body, files_data, etc.)
